@@ -130,3 +130,9 @@ Definition c10_mut_ok (orig : bytes) (pos : nat) (v : Z) (r : option dres) : boo
       end
   | Some _ => true
   end.
+
+(* Hamming distance of two bytes; the five frame-start bytes (used to state C10_single_bit) *)
+Definition bit_positions : list Z := [0; 1; 2; 3; 4; 5; 6; 7].
+Definition delims : list Z := [SD1; SD2; SD3; SD4; SC].
+Definition popcount8 (b : Z) : nat := length (filter (Z.testbit b) bit_positions).
+Definition hamming (a b : Z) : nat := popcount8 (Z.lxor a b).
